@@ -52,3 +52,16 @@ Definition pinned_fingerprints : list (string * string) :=
    ("ValidateIdentityRecordKey", "48932523163583ca");
    ("EnsureOldUniqueKeysNotRemoved", "dd2f1ab0e8630f2e");
    ("EnsureUniqueKeys", "9e6968bbc095f461")]%string.
+
+(* the write paths of the pinned tree: who touches the store key, who calls the setters, and the
+   permission the message handler checks before writing (x/gov/keeper/msg_server.go) *)
+Definition pinned_store_key_users : list (string * string * string) :=
+  [("x/gov/keeper/keeper.go", "GetNetworkProperties", "KeyPrefixNetworkProperties");
+   ("x/gov/keeper/keeper.go", "SetNetworkProperties", "KeyPrefixNetworkProperties")]%string.
+Definition pinned_setter_callers : list (string * string * string) :=
+  [("x/gov/genesis.go", "InitGenesis", "SetNetworkProperties");           (* genesis import: panics on error *)
+   ("x/gov/handler.go", "NewHandler", "SetNetworkProperties");            (* routes the message to the msg server *)
+   ("x/gov/keeper/keeper.go", "SetNetworkProperty", "SetNetworkProperties");
+   ("x/gov/keeper/msg_server.go", "SetNetworkProperties", "SetNetworkProperties");  (* gated by the change permission *)
+   ("x/gov/proposal_handler.go", "Apply", "SetNetworkProperty")]%string.   (* passed proposal *)
+Definition pinned_gate_perm : string := "PermChangeTxFee".
